@@ -26,7 +26,7 @@ ENGINES = {
 
 PROPS = {
     'C01': dict(spec_mods=['SsoSpec.C01'], engines=['proxyflow', 'sfwrap']),
-    'C02': dict(spec_mods=['SsoSpec.C02'], engines=['aead', 'authflow']),
+    'C02': dict(spec_mods=['SsoSpec.C02'], engines=['aead', 'authflow', 'proxyflow']),
     'C03': dict(spec_mods=['SsoSpec.C03'], engines=['forward', 'proxyflow']),
     'C04': dict(spec_mods=['SsoSpec.C04', 'SsoSpec.C04History'], engines=['proxyflow', 'sfwrap', 'config']),
     'C05': dict(spec_mods=['SsoSpec.C05'], engines=['proxyflow', 'config']),
